@@ -21,6 +21,39 @@ CHECKS = {
     ),
 }
 
+CHECKS["C15"] = dict(
+    engine="pyvc", category="proof",
+    text="Relational (two-run) obligations verbose=True vs False are generated from the real bodies of memoize_wrapper, memoize_left_rec_wrapper "
+         "(seed-growing loop coupled by a relational loop invariant) and logger_wrapper and discharged by z3 for all inputs; check_version's contract "
+         "(returns its node iff py_version >= min_version, raises only otherwise), its three call sites and the read-frame of py_version/_verbose are "
+         "checked; a bounded product of sources x options stands in for the end-to-end statement.",
+    design_ref="DESIGN.md 5/C15, 3.2",
+    note="assumed: rule-like callables are deterministic in (cursor, abstract state, memo cache) and independent of tokens pulled ahead and of "
+         "_level; exceptions from rule methods propagate identically; A1 encoding of Python semantics; bounded stand-in never counted as proved.",
+    technique="product-program (relational) contracts on the real wrappers, VCs from ast, discharged by z3/cvc5",
+)
+CHECKS["C17"] = dict(
+    engine="pyvc+pegir", category="proof",
+    text="The run-time combinators the generated code calls are proved against their PEG meaning from their real bodies (loop invariants, variants, "
+         "frames: ~1000 VCs by z3), and every method of the two shipped generated parsers is proved to be the PEG meaning of its grammar rule "
+         "(structural unification). For ALL grammars the claim is only sampled: seeded random grammars are run through the real generator and each "
+         "instance is then proved by `implements`; generator analyses are compared with an independent fixpoint.",
+    design_ref="DESIGN.md 5/C17",
+    note="the universal quantifier over grammars is bounded (60 quick / 600 thorough instances, seeded); seed-growing's full equivalence with "
+         "left-recursive PEG semantics assumed (Warth et al.); matcher is our own decision procedure (trusted).",
+    technique="contracts on runtime combinators discharged by SMT + per-instance `implements` obligations",
+)
+CHECKS["C18"] = dict(
+    engine="pegir", category="proof",
+    text="Memoisation discipline 'no compounding re-entry' proved on the first- and second-pass call graphs of the real generated parser (one "
+         "obligation per un-memoised rule), strict progress of every repeated/gathered callee; this yields a polynomial bound for all inputs. The "
+         "linear bound itself and continuation re-exploration are only measured: work at n and 2n on 55 size-parameterised valid/invalid families.",
+    design_ref="DESIGN.md 5/C18",
+    note="cost model assumption: a memoised method evaluated again at a position is a lookup; linearity not proved (bounded stand-in only); one "
+         "known finding (nested subprocess openers with a wrong closer).",
+    technique="call-graph contract (re-entry multiplicity) decided by own fixpoint procedure + measured doubling stand-in",
+)
+
 NOT_APPLICABLE_REASON = "not built yet (DESIGN.md section 8 build order); no claim is made"
 
 manifest = {
@@ -34,8 +67,10 @@ manifest = {
         "add_only": True,
     },
     "engines": [
-        {"name": "pegir", "path": "engine/pegir.py, engine/implements.py", "serves_properties": ["C16"],
+        {"name": "pegir", "path": "engine/pegir.py, engine/implements.py, engine/pegfacts.py, engine/pegmemo.py", "serves_properties": ["C16", "C17", "C18", "C15"],
          "kind_free_text": "mechanical IR extraction of the generated parser methods + structural decision procedures"},
+        {"name": "pyvc", "path": "engine/pyvc.py, engine/pyexpr.py, engine/pyexec.py, engine/smt.py, contracts/*.py", "serves_properties": ["C15", "C17"],
+         "kind_free_text": "VC generator: symbolic execution of the real function bodies (ast) against sidecar contracts, z3/cvc5 back ends"},
     ],
     "checks": [],
     "notes": "Contract-based deductive verification with sidecar contracts; see DESIGN.md. Exit codes: 0 held / 1 violation / 2 undecided / 3 checker crash.",
